@@ -16,7 +16,7 @@ COMPONENTS = {'real': ['kawin.precipitation.PopulationBalance.PopulationBalanceM
 
 
 def plan(tier):
-    return dict(runs=4000, batch=100, hard_timeout=300, soft_timeout=30) if tier == 'quick' else dict(runs=200000, batch=500, hard_timeout=900, soft_timeout=30)
+    return dict(runs=12000, batch=100, hard_timeout=300, soft_timeout=30) if tier == 'quick' else dict(runs=200000, batch=500, hard_timeout=900, soft_timeout=30)
 
 
 def generate(rng, tier, index):
